@@ -9,6 +9,10 @@ A function counts as named when a string literal of the analyzer contains a path
 tables from which full names are built)."""
 import ast, io, os, re, tokenize
 
+# functions that stay a named call however they are written (the lookup rules C11/C12 state linkage in terms of `hash(name)`;
+# what the hash functions compute is judged separately by the hash-function rule)
+KEEP_CALL = {"hash::gnu_hash", "hash::sysv_hash"}
+
 _PATHS = None
 _EXACT = None
 
